@@ -1232,6 +1232,14 @@ def _b_join(ex, sep, items):
     return out if isinstance(out, (bytes, Sym)) else mk_bytes(lift_bytes(out))
 
 
+@method_of(("str", "join"))
+def _s_join(ex, sep, items):
+    parts = ex.iterate_concrete(items)
+    if not all(isinstance(p, str) for p in parts):
+        raise OutOfReach("str.join over non-concrete strings")
+    return sep.join(parts)
+
+
 @method_of(("bytes", "decode"))
 def _b_decode(ex, b, *a):
     from .exec import OpaqueStr
